@@ -484,14 +484,18 @@ def __saturation_build__(
     list_to_be_treated: Deque[Tuple[Tuple[Type, S], T, List[Tuple[Type, S]]]] = deque()
     list_to_be_treated.append(((return_type, init[0]), init[1], []))
 
+    # a non-terminal can be reached with several pending stacks: each of them must be
+    # followed, since the non-terminals coming next are taken from the stack
+    seen: Set[Tuple[Tuple[Type, Tuple[S, T]], Tuple[Tuple[Type, S], ...]]] = set()
     while list_to_be_treated:
         (current_type, non_terminal), current, stack = list_to_be_treated.pop()
         rule = current_type, (non_terminal, current)
+        if (rule, tuple(stack)) in seen:
+            continue
+        seen.add((rule, tuple(stack)))
         # Create rule if non existent
         if rule not in rules:
             rules[rule] = {}
-        else:
-            continue
         # Try to add variables rules
         for i in range(len(args)):
             if current_type == args[i]:
